@@ -118,8 +118,28 @@ def sany(module_path):
     return p.returncode == 0 and "Semantic errors" not in p.stdout and "***Parse Error***" not in p.stdout, p.stdout
 
 
-def run_driver(binary, test, env, scratch, tag, timeout=3600, args=()):
-    """Run one Go driver test; returns its parsed result JSON."""
+def library_crash(out):
+    """If the Go process died of a panic / runtime fatal error raised INSIDE go-perun code (first frame that is not Go
+    runtime / sync is a go-perun frame), return (message, frame); None for anything else (harness bugs, kills)."""
+    m = re.search(r"^(panic: .*|fatal error: .*)$", out, re.M)
+    if not m:
+        return None
+    for ln in out[m.end():].splitlines():
+        fm = re.match(r"^([\w./*()\[\]-]+)\(.*\)$", ln.strip()) if not ln.startswith("\t") else None
+        if not fm or ln.startswith("goroutine ") or ln.startswith("created by"):
+            continue
+        fr = fm.group(1)
+        if fr.startswith(("runtime.", "internal/", "sync.", "sync/", "syscall.", "panic(")):
+            continue
+        if fr.startswith("perun.network/go-perun/"):
+            return m.group(1)[:200], fr.replace("perun.network/go-perun/", "")
+        return None
+    return None
+
+
+def run_driver(binary, test, env, scratch, tag, timeout=3600, args=(), crash_prop=None):
+    """Run one Go driver test; returns its parsed result JSON. crash_prop: a death of the process inside go-perun code
+    (see library_crash) is returned as a monitor violation of that property instead of being inconclusive."""
     out = os.path.join(scratch, "res-%s.json" % tag)
     e = go_env()
     e.update({k: str(v) for k, v in env.items()})
@@ -130,6 +150,20 @@ def run_driver(binary, test, env, scratch, tag, timeout=3600, args=()):
     p = subprocess.run(cmd, cwd=scratch, env=e, stdout=subprocess.PIPE, stderr=subprocess.STDOUT, text=True)
     if p.returncode == 124:
         raise Inconclusive("driver %s timed out" % test)
+    if not os.path.exists(out) or (p.returncode != 0 and crash_prop):
+        lc = library_crash(p.stdout) if crash_prop else None
+        if lc:
+            rp = os.path.join(scratch, "replays")
+            os.makedirs(rp, exist_ok=True)
+            dst = os.path.join(rp, "%s-crash-%s.txt" % (crash_prop, tag))
+            mm = re.search(r"^(panic: .*|fatal error: .*)$", p.stdout, re.M)
+            with open(dst, "w") as f:
+                f.write("driver %s, environment %s\n\n" % (test, json.dumps({k: str(v) for k, v in env.items()})))
+                f.write(p.stdout[mm.start():mm.start() + 6000])
+            return dict(driver=test, counts={}, distinct={}, samples=[], _wall=time.time() - t0, _rc=p.returncode, _stdout_tail="",
+                        violations=[dict(property=crash_prop, kind="monitor", sig="crash|" + lc[1],
+                                         what="the process died inside go-perun while the driver %s was running its operations: %s @ %s "
+                                              "(the operation in progress never completed)" % (test, lc[0], lc[1]), replay=dst)])
     if not os.path.exists(out):
         log(p.stdout[-6000:])
         raise Inconclusive("driver %s produced no result (exit %d)" % (test, p.returncode))
@@ -163,6 +197,11 @@ def merge_counts(results):
 def finish(prop, tier, seed, t0, coverage, violations, assumptions, drift=None, level="model_checking"):
     """violations: list of dicts(property, kind, sig, what, replay) from drivers.
     Prints KNOWN-FINDING / VIOLATION lines for `prop`, writes evidence, returns exit code."""
+    # only property monitors decide; everything else a driver reports (conformance drift, leaks, set-up problems) is recorded
+    other = [v for v in violations if v.get("kind", "monitor") != "monitor"]
+    violations = [v for v in violations if v.get("kind", "monitor") == "monitor"]
+    if other:
+        drift = list(drift or []) + sorted({v["sig"] + ": " + v["what"][:200] for v in other})[:10]
     known = [k for k in load_known() if k["property"] == prop]
     mine = [v for v in violations if v["property"] == prop]
     rc = 0
